@@ -466,3 +466,45 @@ VARIANTS += [
  dict(name='write-helper-fed-a-prefix', expect='flagged(set/writes-marshalled-entry)', edits=write_helper(call='c.writeEntry(url, contentBytes[:len(contentBytes)&^511])')),
  dict(name='write-helper-fed-base-bytes', expect='flagged(set/writes-marshalled-entry)', edits=write_helper(stmt='\t_ = contentBytes\n\tif err := c.writeEntry(url, bundle.BaseCRL.Raw); err != nil {\n\t\treturn fmt.Errorf("failed to store crl bundle in file cache: %w", err)\n\t}\n')),
 ]
+
+# ---- guard pass: the not-exist test of Get weakened (a missing entry must leave by no other error than the miss)
+NE_IF = '\t\tif errors.Is(err, fs.ErrNotExist) {\n'
+NE_BLOCK = ('\tif err != nil {\n\t\tif errors.Is(err, fs.ErrNotExist) {\n\t\t\tlogger.Debugf("CRL file cache miss. Key %q does not exist", url)\n\t\t\treturn nil, corecrl.ErrCacheMiss\n\t\t}\n'
+            '\t\treturn nil, fmt.Errorf("failed to get crl bundle from file cache with key %q: %w", url, err)\n\t}\n')
+NE_OTHER = '\t\treturn nil, fmt.Errorf("failed to get crl bundle from file cache with key %q: %w", url, err)\n'
+NE_MISS = '\t\tlogger.Debugf("CRL file cache miss. Key %q does not exist", url)\n\t\treturn nil, corecrl.ErrCacheMiss\n'
+VARIANTS += [
+ dict(name='guard-not-exist-false-and', file=C, expect='flagged(get/missing-only-miss)', find=NE_IF, replace='\t\tif false && (errors.Is(err, fs.ErrNotExist)) {\n',
+      why='the sentinel still stands behind the passing edge of the test (get/missing-is-miss holds), but a missing file now falls through to the plain read error'),
+ dict(name='guard-not-exist-extra-conjunct-url', file=C, expect='flagged(get/missing-only-miss)', find=NE_IF, replace='\t\tif strings.HasPrefix(url, "http") && errors.Is(err, fs.ErrNotExist) {\n',
+      edits=[(C, '\t"path/filepath"\n', '\t"path/filepath"\n\t"strings"\n')]),
+ dict(name='guard-not-exist-extra-conjunct-ctx', file=C, expect='flagged(get/missing-only-miss)', find=NE_IF, replace='\t\tif ctx.Err() == nil && errors.Is(err, fs.ErrNotExist) {\n'),
+ dict(name='guard-not-exist-switch-extra-conjunct', file=C, expect='flagged(get/missing-only-miss)', find=NE_BLOCK,
+      replace='\tswitch {\n\tcase err == nil:\n\tcase len(url) > 1 && errors.Is(err, fs.ErrNotExist):\n' + NE_MISS + '\tdefault:\n' + NE_OTHER + '\t}\n'),
+ dict(name='guard-not-exist-predicate-extra-conjunct', expect='flagged(get/missing-only-miss)',
+      edits=[(C, NE_IF, '\t\tif entryMissing(err, url) {\n'),
+             (C, SET_DOC, '// entryMissing tells whether the read failed because there is no entry\nfunc entryMissing(err error, url string) bool {\n\treturn url != "" && errors.Is(err, fs.ErrNotExist)\n}\n\n' + SET_DOC)]),
+ dict(name='guard-not-exist-read-helper-false-and', expect='flagged(get/missing-only-miss)',
+      edits=read_helper(body=READ_OLD.replace('if errors.Is(err, fs.ErrNotExist) {', 'if false && (errors.Is(err, fs.ErrNotExist)) {'))),
+ dict(name='read-helper-miss-handed-on-only-for-not-exist', expect='flagged(get/missing-only-miss)',
+      edits=read_helper(call='\tcontentBytes, err := c.readEntry(logger, url)\n\tif err != nil {\n\t\tif errors.Is(err, fs.ErrNotExist) {\n\t\t\treturn nil, err\n\t\t}\n\t\treturn nil, errors.New("failed to read the crl file cache")\n\t}\n'),
+      why='the helper has already turned not-exist into the miss: the caller\'s test is false for it and the miss is replaced by a plain error'),
+ dict(name='benign-not-exist-negated-arms-exchanged', file=C, expect='silent', find=NE_BLOCK,
+      replace='\tif err != nil {\n\t\tif !errors.Is(err, fs.ErrNotExist) {\n\t' + NE_OTHER + '\t\t}\n' + NE_MISS + '\t}\n'),
+ dict(name='benign-not-exist-switch', file=C, expect='silent', find=NE_BLOCK,
+      replace='\tswitch {\n\tcase err == nil:\n\tcase errors.Is(err, fs.ErrNotExist):\n' + NE_MISS + '\tdefault:\n' + NE_OTHER + '\t}\n'),
+ dict(name='benign-not-exist-test-first', file=C, expect='silent', find=NE_BLOCK,
+      replace='\tif errors.Is(err, fs.ErrNotExist) {\n' + NE_MISS + '\t}\n\tif err != nil {\n' + NE_OTHER + '\t}\n'),
+ dict(name='benign-not-exist-predicate', expect='silent',
+      edits=[(C, NE_IF, '\t\tif entryMissing(err) {\n'),
+             (C, SET_DOC, '// entryMissing tells whether the read failed because there is no entry\nfunc entryMissing(err error) bool {\n\treturn errors.Is(err, fs.ErrNotExist)\n}\n\n' + SET_DOC)],
+      why='the predicate answers false only behind "errors.Is(err, fs.ErrNotExist) is false"; on the edges of Get that fact reads with the parameter replaced by the read error'),
+ dict(name='benign-not-exist-error-local-single-return', file=C, expect='silent', find=NE_BLOCK,
+      replace='\tif err != nil {\n\t\tvar readErr error\n\t\tif errors.Is(err, fs.ErrNotExist) {\n\t\t\tlogger.Debugf("CRL file cache miss. Key %q does not exist", url)\n\t\t\treadErr = corecrl.ErrCacheMiss\n\t\t} else {\n\t\t\treadErr = fmt.Errorf("failed to get crl bundle from file cache with key %q: %w", url, err)\n\t\t}\n\t\treturn nil, readErr\n\t}\n',
+      why='one return of an error local: the arms of the phi are judged one by one'),
+ dict(name='error-local-single-return-extra-conjunct', file=C, expect='flagged(get/missing-only-miss)', find=NE_BLOCK,
+      replace='\tif err != nil {\n\t\tvar readErr error\n\t\tif len(url) > 1 && errors.Is(err, fs.ErrNotExist) {\n\t\t\tlogger.Debugf("CRL file cache miss. Key %q does not exist", url)\n\t\t\treadErr = corecrl.ErrCacheMiss\n\t\t} else {\n\t\t\treadErr = fmt.Errorf("failed to get crl bundle from file cache with key %q: %w", url, err)\n\t\t}\n\t\treturn nil, readErr\n\t}\n'),
+ dict(name='benign-read-helper-caller-tests-miss-first', expect='silent',
+      edits=read_helper(call='\tcontentBytes, err := c.readEntry(logger, url)\n\tif err != nil {\n\t\tif errors.Is(err, corecrl.ErrCacheMiss) {\n\t\t\treturn nil, err\n\t\t}\n\t\treturn nil, fmt.Errorf("crl file cache: %v", err)\n\t}\n'),
+      why='the error that loses its chain (%v) is returned only behind "the helper\'s error is not the miss"'),
+]
